@@ -87,6 +87,7 @@ package processorqueue
 // ---------------------------------------------------------------- the processor
 //@ ghost var gLastAllowed bool                  // answer of the latest quota.Allowed
 //@ ghost var gEnqStamp gmap[string]int64        // arrival stamp the shared queue orders an id by
+//@ ghost var gEnqVerdict bool                   // what the latest enqueue answered (the verdict of its request)
 //@ ghost field Request.gAdmitted bool           // the attached quota admitted this request
 
 //@ iface ResourceManagementI.GetQuota
@@ -169,22 +170,24 @@ package processorqueue
 //@   mode seq
 //@   requires p.requestsWatcher != nil && watchOK(p.requestsWatcher)
 //@   allocates Request
-//@   modifies mapof(p.requestsWatcher.requests), mapof(p.requestsWatcher.requestsExpireAt), opof(p.requestsWatcher.requestCount), gEnqStamp, now
+//@   modifies mapof(p.requestsWatcher.requests), mapof(p.requestsWatcher.requestsExpireAt), opof(p.requestsWatcher.requestCount), gEnqStamp, gEnqVerdict, now
+//@   on return do gEnqVerdict = result
 //@   spawn modifies mapof(p.requestsWatcher.requests), mapof(p.requestsWatcher.requestsExpireAt), opof(p.requestsWatcher.requestCount)
 // the clean-up goroutine gives a slot back (RemoveFromWatchList decrements the count unconditionally): it may only be started for a request that took one
 //@   spawn requires[only-a-registered-request-is-cleaned-up] in(req.apiStream.GetID(), p.requestsWatcher.requests) && p.requestsWatcher.requests[req.apiStream.GetID()] == req
 //@   ensures[full-queue-rejects] old(atomicval(p.requestsWatcher.requestCount)) >= p.maxQueueSize ==> !result
 //@   ensures[answer-is-the-verdict] old(atomicval(p.requestsWatcher.requestCount)) < p.maxQueueSize ==> (result <==> req.result == requestSuccess)
 //@   ensures[own-request] req != nil && req.apiStream == apiStream && req.priority == priority
+//@   ensures[verdict-recorded] gEnqVerdict == result
 
 //@ func (*queueProcessor).Execute
 //@   prop C06
 //@   mode seq
 //@   requires p.requestsWatcher != nil && watchOK(p.requestsWatcher)
 //@   allocates Request
-//@   modifies mapof(p.requestsWatcher.requests), mapof(p.requestsWatcher.requestsExpireAt), opof(p.requestsWatcher.requestCount), gEnqStamp, now
+//@   modifies mapof(p.requestsWatcher.requests), mapof(p.requestsWatcher.requestsExpireAt), opof(p.requestsWatcher.requestCount), gEnqStamp, gEnqVerdict, now
 //@   ensures[allowed-or-blocked] result1 == nil && (result0.Name == "allowed" || result0.Name == "blocked")
-//@   ensures[allowed-iff-verdict] result0.Name == "allowed" <==> canProcess
+//@   ensures[allowed-iff-verdict] result0.Name == "allowed" <==> gEnqVerdict
 
 // ---------------------------------------------------------------- construction: the processor works with its own configured parameters
 // the value of a configured processor parameter (the extraction helpers are proved in processors/utils)
